@@ -27,6 +27,8 @@ Data(id) ==
     [] id = 4 -> <<H("100.0"), M("99,999.99", 9999999, 2)>>
     [] id = 5 -> <<N("0.0", 0, 1), Dg("0", 0)>>
     [] id = 6 -> <<N("55.55", 5555, 2), N("1234.5", 12345, 1)>>
+    \* a holding of seven digits: two thousands separators
+    [] id = 7 -> <<N("12.5", 125, 1), M("1,234,567.8", 12345678, 1)>>
 Shells ==
   { [hundred |-> h, total |-> t, before |-> b, after |-> a] :
       h \in {H("100.0"), H("100.00")}, t \in {M("100,000.01", 10000001, 2), N("0.0", 0, 1)},
